@@ -83,3 +83,57 @@ def binary_encoder_arms(prog):
                             arms["_"] = arm
                 return fn, n, arms
     raise core.AnchorMissing("match on prop_info.prop_type not found in serialize_properties")
+
+
+def const_value(prog, path, depth=3):
+    """Literal value of a const/static item (bytes tuple, str, int), following simple references."""
+    fn = prog.fns.get(path)
+    if fn is None or fn.body is None or depth <= 0:
+        return None
+    return literal_of(prog, fn.body, depth - 1)
+
+
+def literal_of(prog, n, depth=3):
+    n = core.strip(n)
+    k = n.get("k")
+    if k == "Lit":
+        v = n["lit"].get("v")
+        if n["lit"]["lk"] == "bytes":
+            return tuple(v)
+        return v
+    if k == "Array":
+        vals = [literal_of(prog, a, depth) for a in n["args"]]
+        if all(isinstance(v, int) for v in vals):
+            return tuple(vals)
+        return None
+    if k == "Repeat":
+        v = literal_of(prog, n["e"], depth)
+        m = re.search(r";\s*(\d+)\]", n.get("ty", ""))
+        if isinstance(v, int) and m:
+            return tuple([v] * int(m.group(1)))
+        return None
+    if k == "Path" and n.get("res", "").startswith(("Const", "Static", "AssocConst")):
+        return const_value(prog, n.get("inst") or n.get("def"), depth)
+    if k == "Cast":
+        return literal_of(prog, n["e"], depth)
+    if k == "Unary" and n.get("op") == "-":
+        v = literal_of(prog, n["e"], depth)
+        return -v if isinstance(v, int) else None
+    return None
+
+
+def argdesc(prog, n):
+    """Semantic role of an argument expression: ('const', value) | ('len', 'root.path') | ('place', 'root.path') | ('expr', fingerprint)"""
+    v = literal_of(prog, n)
+    if v is not None:
+        return ("const", v)
+    n0 = core.strip(n)
+    if n0.get("k") == "Cast":
+        n0 = core.strip(n0["e"])
+    if n0.get("k") == "MethodCall" and n0["m"] == "len" and not n0["args"]:
+        root, path = core.place_root(n0["recv"])
+        return ("len", ".".join([str(root)] + [p for p in path if not p.startswith(".")]))
+    root, path = core.place_root(n0)
+    if root is not None and all(not p.startswith(".") or p in (".as_ref()", ".as_slice()", ".as_str()", ".as_bytes()", ".borrow()") for p in path):
+        return ("place", ".".join([str(root)] + [p for p in path if not p.startswith(".")]))
+    return ("expr", core.fingerprint(n0, 5))
